@@ -249,7 +249,7 @@ theorem parse_shape (g : NodeGrammar) (uni : Uni) :
       · cases h
       · next i1 m1 vs h1 =>
         injection h with h0 _ hv; subst h0 hv
-        obtain ⟨l, mL, hr, ho, _⟩ := repLoop_unitP_ok _ _ _ _ _ _ _ _ _ _ _ _ _ _ h1
+        obtain ⟨l, mL, hr, ho, _⟩ := repLoop_unitP_ok _ _ _ _ _ _ _ 0 _ _ [] _ _ _ rfl h1
         have hskip : AdvFn (fun i m => skipLoop (parse g uni n false g.skipped) (skipCount sk inh) i m []) := by
           intro i m i' m' vs hh
           exact skipLoop_adv _ (hadv false g.skipped) _ _ _ _ _ _ _ hh
@@ -357,7 +357,7 @@ theorem parse_shape (g : NodeGrammar) (uni : Uni) :
             simp only [HasShape]
             exact ⟨_, _, _, rfl, hle⟩
     | array k x =>
-      simp only [parse] at h
+      simp only [parse, arrayTryInto_arrayLoop] at h
       split at h
       · cases h
       · cases h
